@@ -58,3 +58,22 @@ theorem ueSetForEveryType_false : ¬ UeSetForEveryType := by
   simp [run, step, look, setOp, doSet, init, upd, exMem, exPErr, exErr] at this
 
 end C08F8
+
+/-! ## K-C08-mixed-addressing / K-C08-set-nil-interface (code with F8 and F27; not obligations) -/
+namespace C08F8
+open Var C08
+
+/-- One variable addressed by pointer and by name in one builder: two cache keys, two mockers, two saved origins.
+    7 → Set 1 through `Var(&v)` → Set 2 through `UnExportedVar("pkg.v")` → Cancel both (in that order) leaves 1.
+    `C08L.Owner` (no other mocker holds a mock of the variable) is exactly what this history violates. -/
+theorem mixed_addressing_restores_wrong_value :
+    ((run false (init exMem) [.look 0 false 0, .look 0 true 0, .set 0 (some ⟨exInt, 1⟩), .set 1 (some ⟨exInt, 2⟩),
+        .cancel 0, .cancel 1]).mem 0).cur = some ⟨exInt, 1⟩ := by
+  simp [run, step, look, setOp, doSet, cancel, init, upd, exMem, rset, valueOf, exInt]
+
+/-- `Set(nil)` on an interface-typed variable: `reflect.ValueOf(nil)` is the zero Value, `Set` panics, nothing changes. -/
+theorem set_nil_interface_panics :
+    (step false (run false (init exMem) [.look 0 false 1]) (.set 0 none)).2 = .panic .setZeroValue := by
+  simp [run, step, look, setOp, doSet, init, upd, exMem, rset, valueOf]
+
+end C08F8
